@@ -41,11 +41,12 @@ def key_of_text(text: str):
 
 def make_set(remote_id="ELEC7001", toggle=False, modes=("auto", "dry", "fan", "cool", "heat"),
              tmin=16, tmax=30, coverage=("base", "fan", "swing"), on_coverage=None, fans=("auto", "low", "medium", "high"),
-             with_off=True, with_fun=None, pad=0, odd_coverage=None):
+             with_off=True, with_fun=None, pad=0, odd_coverage=None, distractors=False):
     """Build an IR set dict.
 
     coverage: which key shapes exist for plain keys: 'base' (mode[+temp]), 'fan' (+_fN), 'swing' (+_fN_d1).
     on_coverage: same for `on_`-prefixed keys (toggle sets); None = same as coverage when toggle else nothing.
+    distractors: also store `<stem>_d1` (swing without fan level) entries, which no request may ever select.
     odd_coverage: if given, odd temperatures (and the dry/fan modes) use this coverage instead - a set whose
                   key coverage is not uniform across temperatures and modes.
     """
@@ -57,6 +58,9 @@ def make_set(remote_id="ELEC7001", toggle=False, modes=("auto", "dry", "fan", "c
             stems = [(MODE_CODE[m] + "%02d" % t, t % 2 == 1) for t in range(tmin, tmax + 1)] if m in TEMP_MODES else [(MODE_CODE[m], m in ("dry", "fan"))]
             for stem, odd in stems:
                 c = odd_coverage if (odd and odd_coverage is not None and cov) else cov
+                if distractors:
+                    # keys that exist in the set but are never a candidate for any request: swing without a fan level
+                    waves.append(wave(prefix + stem + "_d1", pad))
                 if "base" in c:
                     waves.append(wave(prefix + stem, pad))
                 for f in fans:
